@@ -35,6 +35,9 @@ type Prog struct {
 	Ignored []string // files excluded by build constraints
 
 	ssa *SSA
+
+	lockAcq map[string][2]string
+	lockRel map[string]string
 }
 
 // Out-of-scope packages: harness, generators, integration drivers, examples.
